@@ -133,6 +133,16 @@ def make_transform(st, spec, ledger):
             if f.featuretype == spec["from"]:
                 f.featuretype = spec["to"]
             return f
+        if kind == "delete_delivered":
+            # the caller modifies the SOURCE database while it is being read: features that were already
+            # delivered are deleted from it
+            delivered = ledger.setdefault("delivered_ids", [])
+            if f.id is not None:
+                delivered.append(f.id)
+            if len(ledger["calls"]) == spec["at"] and len(delivered) > spec.get("n", 10):
+                st.h[spec["h"]].delete(delivered[: spec.get("n", 10)], make_backup=False)
+                ledger["deleted_from_source"] = spec.get("n", 10)
+            return f
         raise ValueError(kind)
 
     return t
@@ -655,6 +665,22 @@ def op_dataiter(st, op):
             "ledger": st.ledgers.get(led)}
 
 
+def op_dataiter_pair(st, op):
+    """Two iterators over the same from_string text alive at once; the first is dropped and collected
+    before the second is read."""
+    text = op["text"]
+    kw = dict(op.get("kw") or {})
+    it1 = giterators.DataIterator(text, from_string=True, **kw)
+    it2 = giterators.DataIterator(text, from_string=True, **kw)
+    n1 = None
+    if op.get("read_first"):
+        n1 = len(list(it1))
+    del it1
+    gc.collect()
+    feats = [fdict(f) for f in it2]
+    return {"n_first": n1, "features": feats, "directives": list(it2.directives)}
+
+
 def op_inspect(st, op):
     from gffutils import inspect as ginspect
 
@@ -703,6 +729,7 @@ OPS = {
     "merge_interleave": op_merge_interleave,
     "dataiter": op_dataiter,
     "inspect": op_inspect,
+    "dataiter_pair": op_dataiter_pair,
     "export": op_export,
     "ls": op_ls,
 }
@@ -715,6 +742,7 @@ def execute(st, op):
     name = op["op"]
     fn = OPS[name]
     ctx.begin_op(op.get("faults"))
+    ctx.short_writes = bool(op.get("short_writes"))
     res = {"ok": True}
     try:
         try:
